@@ -32,6 +32,17 @@ def _instances(model):
     S = c05b.spaces()
     for name, b in c05b.builders(model).items():
         yield 'linear', name, c05b.H5, (lambda I, b=b: b(I, S))
+    # the operators returned as adjoints are operators too (closure classes
+    # such as ResizingOperatorAdjoint exist only there)
+    def adj(b):
+        def build(I):
+            try:
+                return I.getattr_value(b(I, S), 'adjoint')
+            except PyRaise:
+                return None          # no adjoint: C05 decides that
+        return build
+    for name, b in c05b.builders(model).items():
+        yield 'adjoint', name, c05b.H5, adj(b)
     for name, b in c06b.builders(model).items():
         yield 'nonlinear', name, c06b.H9, b
     for name, b in c09b.builders(model).items():
@@ -55,6 +66,8 @@ def evaluate(model, Hcls, build):
     H = Hcls()
     I = SMInterp(model, {}, H)
     A = build(I)
+    if A is None:
+        return None
     dom = I.getattr_value(A, 'domain')
     ran = I.getattr_value(A, 'range')
 
@@ -128,7 +141,11 @@ def run(rep, model):
         rel, line = _where(model, name.replace('expr:', ''))
         cons = '%s:%s' % (kind, name)
         try:
-            probs, m, inpl = evaluate(model, Hcls, b)
+            r = evaluate(model, Hcls, b)
+            if r is None:
+                n -= 1
+                continue
+            probs, m, inpl = r
         except (Undecided, Fork) as e:
             rep.undecided('R11', cons, str(e), rel)
             continue
